@@ -48,4 +48,16 @@ PROPS = {
         "level_text": "Theorem in Coq for all registration lists (any lengths, shared prefixes, orders, repeated registrations) and all inputs: longest registered prefix or single character, own type (last registration), exact consumption, no unregistered proper prefix. The trie is a small pure structure fully inside the model; correspondence drives one GenericSymbolState per case through hundreds of inputs, so instance-level cache effects (sibling aliasing) are observable.",
         "level_note": "Trusted: Coq kernel + vm_compute; hand-written flat-trie model (Trie.v) tied to SymbolNode.go/SymbolRootNode.go by correspondence on generated cases only; extraction + driver; Go harness. No axioms. Go slice aliasing is not in the model: it is visible only through the correspondence and the direct oracle.",
     },
+    "C14": {
+        "run_module": "RunC14", "model": "model_C14",
+        "model_targets": ["RunC14.vo"],
+        "proof_files": ["QuoteProofs.v"],
+        "kernel_cases": {"quick": 300, "thorough": 600},
+        "exhaustive_in": {"quick": True, "thorough": True},
+        "explanation": "theorems decode_encode, decode_total, read_back for every string and quote character (induction on the string); the three quote states' EncodeString/DecodeString/NextToken are modelled completely, with the decode index as an explicit nth_error so that an out-of-range index is a Panic outcome",
+        "assumptions": ["strings and quote characters are valid Unicode scalar values"],
+        "design_ref": "DESIGN.md 5.5",
+        "level_text": "Theorems in Coq for all strings (unbounded) and all quote characters: decode(encode s) = s for the generic and the expression/CSV codecs, decoding never indexes out of range, and the expression/CSV reader reads the encoded form placed in a stream back as exactly one token that decodes to s. The codecs are pure string functions entirely inside the model; correspondence is exhaustive up to length 3/4 over the property's alphabet for all three states plus random strings.",
+        "level_note": "Trusted: Coq kernel + vm_compute; hand-written model Quote.v (Go strings.ReplaceAll modelled as leftmost non-overlapping replacement) tied to the three Go quote states by correspondence on generated cases only; extraction + driver; Go harness. No axioms.",
+    },
 }
